@@ -210,8 +210,7 @@ def run(ck: Check) -> int:
                         first.append(x)
                 want = first
             mine = G.glob(pos, flags=base | (G.NOUNIQUE if nounique else 0), exclude=neg, **kw)
-            names_nl = any('\n' in x for x in plain)
-            if want != mine and not names_nl:
+            if want != mine:
                 found.append(Failing('exclude= differs from filtering with globmatch(path+sep, DOTGLOB)',
                                      {**c.to_json(G, t), 'positive': pos, 'negative': neg}, want[:12], mine[:12],
                                      'wcmatch/glob.py:563-580'))
